@@ -10,6 +10,7 @@ import (
 	"bytes"
 	"fmt"
 	"os"
+	"path/filepath"
 	"reflect"
 	"strings"
 	"testing"
@@ -19,6 +20,7 @@ import (
 	"github.com/tsawler/tabula/resolver"
 	"pgregory.net/rapid"
 
+	"verif/harness/gen/filt"
 	"verif/harness/gen/pdfw"
 	"verif/harness/vr"
 )
@@ -737,3 +739,125 @@ func TestExhaustiveSmall(t *testing.T) {
 }
 
 var _ = strings.Join
+
+// ---------------------------------------------------------------------------
+// check "objstmsize" (round 11): one object stream with very many members, reached through a cross-reference stream
+// whose third field (the index inside the object stream for type-2 entries) is W3 bytes wide. Every member is the
+// integer 7*num+1; whatever index a member has, the lookup by number returns it.
+
+type BigCase struct {
+	Members int  `json:"members"`
+	W3      int  `json:"w3"`
+	Flate   bool `json:"flate,omitempty"`
+}
+
+func init() { vr.Register("objstmsize", checkBig) }
+
+func bigFile(c BigCase) []byte {
+	const first = 10 // number of the first member
+	var head, body bytes.Buffer
+	for i := 0; i < c.Members; i++ {
+		fmt.Fprintf(&head, "%d %d ", first+i, body.Len())
+		fmt.Fprintf(&body, "%d ", 7*(first+i)+1)
+	}
+	payload := append(append([]byte{}, head.Bytes()...), body.Bytes()...)
+	filter := ""
+	if c.Flate {
+		payload = filt.Zlib(payload, 6)
+		filter = " /Filter /FlateDecode"
+	}
+	var f bytes.Buffer
+	off := map[int]int{}
+	f.WriteString("%PDF-1.5\n%\xe2\xe3\xcf\xd3\n")
+	off[1] = f.Len()
+	f.WriteString("1 0 obj\n<< /Type /Catalog /Pages 2 0 R >>\nendobj\n")
+	off[2] = f.Len()
+	f.WriteString("2 0 obj\n<< /Type /Pages /Kids [] /Count 0 >>\nendobj\n")
+	off[3] = f.Len()
+	fmt.Fprintf(&f, "3 0 obj\n<< /Type /ObjStm /N %d /First %d%s /Length %d >>\nstream\n", c.Members, head.Len(), filter, len(payload))
+	f.Write(payload)
+	f.WriteString("\nendstream\nendobj\n")
+	off[4] = f.Len()
+	var x bytes.Buffer
+	put := func(typ, f1, f2 int) {
+		x.WriteByte(byte(typ))
+		for b := 3; b >= 0; b-- {
+			x.WriteByte(byte(f1 >> (8 * uint(b))))
+		}
+		for b := c.W3 - 1; b >= 0; b-- {
+			x.WriteByte(byte(f2 >> (8 * uint(b))))
+		}
+	}
+	put(0, 0, 65535&(1<<(8*uint(c.W3))-1))
+	for n := 1; n <= 4; n++ {
+		put(1, off[n], 0)
+	}
+	for i := 0; i < c.Members; i++ {
+		put(2, 3, i)
+	}
+	fmt.Fprintf(&f, "4 0 obj\n<< /Type /XRef /Size %d /Root 1 0 R /W [1 4 %d] /Index [0 5 %d %d] /Length %d >>\nstream\n", first+c.Members, c.W3, first, c.Members, x.Len())
+	f.Write(x.Bytes())
+	fmt.Fprintf(&f, "\nendstream\nendobj\nstartxref\n%d\n%%%%EOF\n", off[4])
+	return f.Bytes()
+}
+
+func checkBig(c BigCase) error {
+	if c.Members < 1 || c.W3 < 1 || c.W3 > 4 || c.Members > 1<<(8*uint(c.W3)) {
+		return fmt.Errorf("not a case: %+v", c)
+	}
+	path := filepath.Join(tmpDir, fmt.Sprintf("big-%d-%d-%v.pdf", c.Members, c.W3, c.Flate))
+	if err := os.WriteFile(path, bigFile(c), 0o644); err != nil {
+		return err
+	}
+	defer os.Remove(path)
+	r, err := reader.Open(path)
+	if err != nil {
+		return fmt.Errorf("reader.Open failed on a well-formed file (object stream with %d members, /W [1 4 %d]): %v", c.Members, c.W3, err)
+	}
+	defer r.Close()
+	// members around every power of 256 the index crosses, the first and the last, forwards and then backwards
+	var nums []int
+	for _, i := range []int{0, 1, 254, 255, 256, 257, 65534, 65535, 65536, 65537, 65546, c.Members - 2, c.Members - 1} {
+		if i >= 0 && i < c.Members {
+			nums = append(nums, 10+i)
+		}
+	}
+	for pass := 0; pass < 2; pass++ {
+		for k := range nums {
+			num := nums[k]
+			if pass == 1 {
+				num = nums[len(nums)-1-k]
+			}
+			got, err := r.GetObject(num)
+			if err != nil {
+				return fmt.Errorf("object %d (member %d of an object stream with %d members, /W [1 4 %d]): lookup failed: %v", num, num-10, c.Members, c.W3, err)
+			}
+			if v, ok := got.(core.Int); !ok || int(v) != 7*num+1 {
+				return fmt.Errorf("object %d (member %d of an object stream with %d members, /W [1 4 %d]) = %v, want %d", num, num-10, c.Members, c.W3, got, 7*num+1)
+			}
+		}
+		r.ClearCache()
+	}
+	return nil
+}
+
+// TestObjStmSize: a deterministic sweep (quick: 6 files, thorough: 14).
+func TestObjStmSize(t *testing.T) {
+	cases := []BigCase{{200, 1, false}, {300, 2, true}, {300, 3, false}, {65536, 2, true}, {65547, 3, true}, {65547, 4, false}}
+	if vr.Thorough() {
+		cases = append(cases, BigCase{256, 1, true}, BigCase{257, 2, false}, BigCase{65536, 3, false}, BigCase{65537, 3, true}, BigCase{70000, 4, true},
+			BigCase{131080, 3, true}, BigCase{1, 1, false}, BigCase{2, 4, true})
+	}
+	for i, c := range cases {
+		if !vr.Mine(i) {
+			continue
+		}
+		m := vr.Meta{FP: fmt.Sprintf("big%v", c), NonTrivial: c.Members > 256, Labels: []string{"objstm-size", fmt.Sprintf("w3:%d", c.W3)}}
+		if c.Members > 65536 {
+			m.Labels = append(m.Labels, "objstm-index-above-65535")
+		}
+		if !vr.One(t, "objstmsize", c, m, checkBig) {
+			return
+		}
+	}
+}
